@@ -451,7 +451,17 @@ class Ctx:
             raise BoundExceeded('work unit wall-clock cap reached inside a '
                                 'path')
         t0 = time.time()
-        r = self.solver.check(*extra)
+        # z3 does not reliably honour its own timeout on non-linear queries:
+        # a watchdog thread interrupts the context (the call then returns
+        # `unknown`), which works because ctypes releases the GIL
+        limit = t0 + self.timeout_ms / 1000.0 * 1.5 + 5.0
+        if self.deadline is not None:
+            limit = min(limit, self.deadline + 5.0)
+        _watchdog_arm(limit)
+        try:
+            r = self.solver.check(*extra)
+        finally:
+            _watchdog_arm(None)
         self.stats.add(backend, time.time() - t0)
         return str(r)
 
@@ -1860,6 +1870,31 @@ def _mk_cplx(re, im):
     if isinstance(re, SReal) or isinstance(im, SReal):
         return SComplex(re, im)
     return complex(re, im)
+
+
+_WD = {'pid': None, 'until': None}
+
+
+def _watchdog_arm(until):
+    """(dis)arm the per-process z3 watchdog"""
+    import os
+    import threading
+    _WD['until'] = until
+    if until is None or _WD['pid'] == os.getpid():
+        return
+
+    def loop():
+        while True:
+            time.sleep(0.5)
+            u = _WD['until']
+            if u is not None and time.time() > u:
+                _WD['until'] = None
+                try:
+                    z3.main_ctx().interrupt()
+                except Exception:      # noqa
+                    pass
+    _WD['pid'] = os.getpid()
+    threading.Thread(target=loop, daemon=True).start()
 
 
 class SymArray(np.ndarray):
